@@ -194,9 +194,18 @@ def rule_k1(ctx: Ctx) -> None:
         if fi.cls is None and fp.use and fp.use.startswith("collect:"):
             hits = fp.use.split(":")[1]
             # acceptance: set(hits).intersection(R) == set([])
-            txt = unparse(fi.node)
-            sets = [k for k in _assigned_from(fi, f"set({hits})")]
-            accepted = any(f"{s}.intersection(R) == set([])" in txt or f"not {s}.intersection(R)" in txt or f"{s}.isdisjoint(R)" in txt for s in sets + [f"set({hits})"])
+            sets = [k for k in _assigned_from(fi, f"set({hits})")] + [f"set({hits})"]
+            accepted = False
+            for n in ast.walk(fi.node):
+                # S.intersection(R) == set([]) / set()   |   not S.intersection(R)   |   S.isdisjoint(R)
+                if isinstance(n, ast.Compare) and len(n.ops) == 1 and isinstance(n.ops[0], ast.Eq) and isinstance(n.left, ast.Call) and isinstance(n.left.func, ast.Attribute) \
+                        and n.left.func.attr == "intersection" and unparse(n.left.func.value) in sets and unparse(n.comparators[0]) in ("set([])", "set()", "frozenset()"):
+                    accepted = True
+                if isinstance(n, ast.UnaryOp) and isinstance(n.op, ast.Not) and isinstance(n.operand, ast.Call) and isinstance(n.operand.func, ast.Attribute) \
+                        and n.operand.func.attr == "intersection" and unparse(n.operand.func.value) in sets:
+                    accepted = True
+                if isinstance(n, ast.Call) and isinstance(n.func, ast.Attribute) and n.func.attr == "isdisjoint" and unparse(n.func.value) in sets:
+                    accepted = True
             if accepted:
                 ctx.ok("C17-K1", fi.where, "BiSC test: accept iff no hit cell lies in the shading R (negation of the mesh rejection)", fp.node, fi)
             else:
@@ -212,7 +221,16 @@ def _assigned_from(fi: FuncInfo, value_txt: str) -> List[str]:
     return out
 
 
+GENERIC_FILES = ['permuta/bisc/bisc.py', 'permuta/bisc/bisc_subfunctions.py']
+
+
 def variants():
+    from ..selftest import generic_silent
+
+    return _variants() + generic_silent(GENERIC_FILES)
+
+
+def _variants():
     from ..selftest import V, insert_stmt, reformat_only, rename_local, replace_expr, replace_stmt
 
     BS, MP = "permuta/bisc/bisc_subfunctions.py", "permuta/patterns/meshpatt.py"
